@@ -423,6 +423,10 @@ static void run_deviations(void) {
         if (!vh_thorough && it.family[1] == '1' && it.n > 2 && (it.i % 5) != 0) {
             continue;
         }
+        /* S4 (width-class worst cases at every length) is thinned too: every 31st (quick: every 419th) */
+        if (it.family[1] == '4' && (it.i % (vh_thorough ? 31 : 419)) != 0) {
+            continue;
+        }
         size_t n = it.n;
         size_t len;
         len = varintDictEncode(encbuf, it.v, n);
